@@ -476,10 +476,14 @@ ABTI_ythread_exit(ABTI_xstream *p_local_xstream, ABTI_ythread *p_self)
 #endif
             if (p_self->thread.p_last_xstream ==
                     p_joiner->thread.p_last_xstream &&
+                p_self->thread.p_parent == p_joiner->thread.p_parent &&
                 !(p_self->thread.type & ABTI_THREAD_TYPE_MAIN_SCHED)) {
             /* Only when the current ULT is on the same ES as p_joiner's, we can
              * jump to the joiner ULT.  Note that a parent ULT cannot be a
-             * joiner. */
+             * joiner.  The joiner must also have been scheduled by the same
+             * scheduler: otherwise it would continue under a scheduler that
+             * does not serve its pool, while its own scheduler, which no longer
+             * sees it as blocked, may stop and free that pool. */
             ABTI_pool_dec_num_blocked(p_joiner->thread.p_pool);
             ABTI_event_ythread_resume(ABTI_xstream_get_local(p_local_xstream),
                                       p_joiner, &p_self->thread);
